@@ -1,0 +1,49 @@
+//! Verification hooks for osu!catch internals (`--cfg rosu_pp_verif`).
+
+use crate::{model::beatmap::Beatmap, Difficulty};
+
+use super::{
+    attributes::ObjectCountBuilder, convert::convert_objects,
+    object::banana_shower::BananaShower,
+};
+
+/// The sequence of `(is_fruit, tiny_droplets_before)` records in generation
+/// order, as recorded while converting the objects of a catch map.
+pub fn record_sequence(difficulty: &Difficulty, map: &Beatmap) -> Vec<(bool, u32)> {
+    let map_attrs = map.attributes().difficulty(difficulty).build();
+    let mut count = ObjectCountBuilder::new_gradual();
+
+    let _ = convert_objects(
+        map,
+        &mut count,
+        difficulty.get_mods().reflection(),
+        difficulty.get_hardrock_offsets(),
+        map_attrs.cs as f32,
+    );
+
+    count
+        .into_gradual()
+        .into_iter()
+        .map(|c| c.verif_parts())
+        .collect()
+}
+
+/// Amount of palpable objects of a catch map.
+pub fn n_palpable(difficulty: &Difficulty, map: &Beatmap) -> usize {
+    let map_attrs = map.attributes().difficulty(difficulty).build();
+    let mut count = ObjectCountBuilder::new_regular(0);
+
+    convert_objects(
+        map,
+        &mut count,
+        difficulty.get_mods().reflection(),
+        difficulty.get_hardrock_offsets(),
+        map_attrs.cs as f32,
+    )
+    .len()
+}
+
+/// Amount of bananas of a banana shower.
+pub fn n_bananas(start_time: f64, end_time: f64) -> usize {
+    BananaShower::new(start_time, end_time).n_bananas
+}
